@@ -324,6 +324,19 @@ func registerMath(e *Engine) {
 					return tuple(VDec{T: raw}, nilErr)
 				}
 			}
+			if st.op == "str.++" && len(st.args) == 2 && st.args[1].op == "str.from_int" {
+				// "-" followed by the canonical rendering of a non-negative integer n parses to -n
+				if c, ok := st.args[0].ConstStr(); ok && c == "-" {
+					n := st.args[1].args[0]
+					if p.Decide(Ge(n, IntC64(0))) {
+						raw := Neg(Mul(n, IntC(ten18)))
+						if !p.Decide(Gt(raw, IntC(new(big.Int).Neg(decMaxB)))) {
+							return tuple(VDec{Nil: true}, p.eng.errVal("math/dec", "decimal out of range"))
+						}
+						return tuple(VDec{T: raw}, nilErr)
+					}
+				}
+			}
 			if !p.Decide(App("decStrOK", SBool, st)) {
 				return tuple(VDec{Nil: true}, p.eng.errVal("math/dec", "invalid decimal"))
 			}
